@@ -20,13 +20,13 @@ __PROP__
 Earlier rounds already produced these changes for this property (do NOT repeat them or close variants of them; find different code sites / different mechanisms / different clauses of the property):
 __PREV__
 
-Your task: produce TWO new, different, independent source changes ("mutants") to the library (non-test .go files in __WT__, including cmd/opgen if relevant) such that each one
+Your task: produce THREE new, different, independent source changes ("mutants") to the library (non-test .go files in __WT__, including cmd/opgen if relevant) such that each one
   (a) still compiles (both `go build ./...` and `go build -tags verif ./...`), and the existing test suite, unedited, still passes (run it at least 3 times, since tests use real randomness);
   (b) BREAKS the property above; and
   (c) is SUBTLE: it needs something specific to manifest - a particular random draw or stream, an unusual input/configuration, a multi-step sequence of calls, a particular interleaving or fault at a particular point, or two cooperating code sites that each look fine alone - NOT something ordinary use would expose at once. Aim for changes that a reviewer could plausibly approve (a refactoring, an "optimisation", a well-meant "fix", a new cache), small diffs, and that violate the property only in a corner of the input/stream space (e.g. only for non-ASCII text, only for certain lengths or set overlaps, only on the k-th retry, only when two fields are combined, only after a certain earlier call).
 Do not edit or delete the files verif_hooks.go / verif_nohooks.go or the two one-line hook calls (verifOnDraw, verifCanonAlphabet); leave the hook calls in place in any function you change. Do not edit existing *_test.go files.
 
-For each mutant k = 1,2 create a directory __WT__/mutants/m<k>/ containing:
+For each mutant k = 1,2,3 create a directory __WT__/mutants/m<k>/ containing:
   - patch.diff : the change as a unified diff produced by `git diff` against the clean worktree (only library source changes; must apply with `git apply` to a clean checkout of the same commit);
   - demo_test.go : a self-contained Go test file (package spg or spg_test; for CLI mutants it may build and run ./cmd/opgen) that, when copied into the repository root, FAILS with the mutant applied and PASSES on the clean tree. Deterministic or overwhelmingly likely (e.g. replace crypto/rand.Reader with a scripted reader, or loop enough). Up to ~60 s.
   - README.md : which part of the property it breaks, and exactly what is needed for it to manifest.
@@ -66,5 +66,6 @@ themes=["randomness plumbing around the bounded draw: read raw words with io.Rea
  "data structures: replace uses of the set package with map[rune]struct{} or sorted rune slices, build alphabets via sorted runes, keep the word list sorted and find title-cased twins by lookup, replace maps by slices where order does not matter for the result, avoid repeated string<->rune conversions; the results (kept sets, alphabets as sets, counts, entropies, distributions) must be identical",
  "CLI and token index: restructure cmd/opgen into functions with a config struct and a flag.FlagSet, reword usage and error messages (same exit statuses, same single stdout line, counts-only diagnostics on stderr), restructure Kind/MakeIndices/Tokenize with preallocated slices / switch statements / a single rune conversion (same results and errors for every input, never a panic)"]
 for i,t in enumerate(themes,int(os.environ.get('BSTART','1'))):
+    if not os.path.isdir(RD+'/B%d'%i): continue
     open(RD+'/B%d.prompt.txt'%i,'w').write(ben.replace('__WT__',RD+'/B%d'%i).replace('__ALL__',allp).replace('__THEME__',t))
 print(open(RD+'/C05.prompt.txt').read()[1400:3600])
